@@ -143,7 +143,8 @@ def case_value(c, o):
             [[hb(a), hb(b)] for a, b in (o.get("defl") or [])],
             [[hb(a), opt(b)] for a, b in (o.get("infl") or [])],
             [[hb(a), opt(b)] for a, b in (o.get("json") or [])],
-            [[1, x["ty"], hb(x["body"]), x["n"]] if x["ok"] else [0, max(x["n"], 0)] for x in o["obs"]]]
+            [[1, x["ty"], hb(x["body"]), x["n"]] if x["ok"] else [0, max(x["n"], 0)] for x in o["obs"]],
+            c["mode"] == "ws"]
 
 
 def shrink(binary, case):
